@@ -856,6 +856,19 @@ class H3Connection:
                 else "Invalid frame type on push stream"
             )
 
+        # frames which emit no event carrying the end of the stream
+        # (PUSH_PROMISE, unknown frame types) still have to signal it
+        if stream_ended and frame_type not in (FrameType.DATA, FrameType.HEADERS):
+            self._check_content_length(stream)
+            http_events.append(
+                DataReceived(
+                    data=b"",
+                    push_id=stream.push_id,
+                    stream_ended=True,
+                    stream_id=stream.stream_id,
+                )
+            )
+
         return http_events
 
     def _init_connection(self) -> None:
